@@ -104,13 +104,13 @@ def make_logged():
             self.vlog = []
             super().__init__(*a, **k)
 
-        def reseed(self, seed=None):
+        def reseed(self, seed=None, *a, **k):     # forwards whatever else the library may pass
             self.vlog.append(("R", None if seed is None else int(seed)))
-            return super().reseed(seed)
+            return super().reseed(seed, *a, **k)
 
-        def __call__(self, probe_size):
+        def __call__(self, probe_size, *a, **k):
             self.vlog.append(("C", int(probe_size)))
-            return super().__call__(probe_size)
+            return super().__call__(probe_size, *a, **k)
 
     return LoggedBoxRandoms, BoxRandoms
 
@@ -783,6 +783,21 @@ def uniformity_report(ctx, Plain, pool):
         r = p.chi2()
         r.update(window=window, seed=seed)
         rep["large_samples_8x8"].append(r)
+    # the same statistic on catalogs created in several chunks (what users make): chunks must be independent draws
+    import shutil
+    for window, n, cs in (([0.0, 360.0, -90.0, 90.0], ctx.n(40000, 120000), 5000), ([20.0, 40.0, -30.0, 10.0], ctx.n(24000, 60000), 1500)):
+        seed = ctx.rng.randrange(2 ** 31)
+        cache = impl.fresh_dir(ctx, "uniform_chunked")
+        centre = impl.AngularCoordinates(np.deg2rad([[(window[0] + window[1]) / 2.0, (window[2] + window[3]) / 2.0]]))
+        cat = impl.Catalog.from_random(cache, Plain(*window, seed=seed), n, patch_centers=centre, chunksize=cs, max_workers=1)
+        recs = np.concatenate([arr for arr in impl.patch_records(cat).values()])
+        shutil.rmtree(cache, ignore_errors=True)
+        p = Pool2D(8)
+        p.add(recs["ra"], recs["dec"], tuple(float(np.deg2rad(x)) for x in window))
+        r = p.chi2()
+        distinct = len(set(zip(recs["ra"].tolist(), recs["dec"].tolist())))
+        r.update(window=window, seed=seed, chunked=dict(n=n, chunksize=cs, chunks=-(-n // cs), distinct_points=distinct))
+        rep["large_samples_8x8"].append(r)
     ps = [r["p_value"] for r in rep["large_samples_8x8"] if r and r.get("p_value") is not None]
     rep["min_p_value"] = min(ps) if ps else None
     rep["note"] = ("a statistic, not a theorem; only a p-value below 1e-12 on a 20000+ point sample (probability of a false "
@@ -791,7 +806,7 @@ def uniformity_report(ctx, Plain, pool):
     worst = [r for r in rep["large_samples_8x8"] if r and r.get("p_value") is not None and r["p_value"] < 1e-12]
     if worst:
         ctx.fail("c16-area-not-uniform", "points are grossly non-uniform in area (chi-square p < 1e-12 on an 8x8 equal-area grid): %s"
-                 % [(r["window"], r.get("chi2")) for r in worst], dict(samples=worst))
+                 % [(r["window"], r.get("chi2"), r.get("chunked")) for r in worst], dict(samples=worst))
     ctx.log("area uniformity (statistic only): pooled %s ; min p over large samples %s"
             % (rep["pooled_case_points_4x4"], rep["min_p_value"]))
 
